@@ -21,7 +21,7 @@ var (
 	flagVerif   = flag.String("verif", "/verif", "verification root")
 	flagTimeout = flag.Int("timeout", 20, "per-obligation solver timeout (s)")
 	flagKeep    = flag.String("keep", "", "keep SMT files in this directory")
-	flagJobs    = flag.Int("j", 14, "parallel solver jobs")
+	flagJobs    = flag.Int("j", 6, "parallel obligations (each races three solver processes)")
 	flagVerbose = flag.Bool("v", false, "verbose")
 	flagOnly    = flag.String("only", "", "regexp: only obligations whose name matches")
 )
@@ -167,8 +167,10 @@ func cmdSSA(pat string) {
 		}
 		for _, f := range matchFuncs(e, re) {
 			f.WriteTo(os.Stdout)
-			ws := e.writeSet(f)
-			fmt.Printf("# write set: %v\n", ws)
+			if *flagVerbose {
+				ws := e.writeSet(f)
+				fmt.Printf("# write set: %v\n", ws)
+			}
 		}
 		cleanup()
 	}
@@ -240,6 +242,9 @@ func solveAll(obls []*Obligation, dir string, timeout int) {
 				}
 				if r.Status != "unsat" && len(parts) > 1 {
 					o.FailedPart = part
+				}
+				if r.Status != "unsat" && !o.MustBeSat {
+					break
 				}
 			}
 			o.Parts = len(parts)
@@ -317,6 +322,9 @@ func cmdProve(pat, prop string) int {
 				}
 				if !o.ok() || *flagVerbose {
 					fmt.Printf("   %s %-8s %s [%s %s %.2fs] %s\n", st, o.Class, o.Name, o.Result.Status, o.Result.Solver, o.Result.Time, o.File)
+					if !o.ok() && o.FailedPart != "" {
+						fmt.Printf("        failed part: %s\n", truncate(o.FailedPart, 700))
+					}
 				}
 			}
 		}
@@ -547,7 +555,7 @@ func lemmaObligations(e *Engine, prop string) []*Obligation {
 		g.prepareAxioms()
 		env := &Env{vars: map[string]EnvVal{}, lets: map[string]CExpr{}, heap: Heap{}, old: Heap{}, labels: map[string]*callRecord{}}
 		t := g.trBool(l.Expr, env, &Clause{Kind: "lemma", Name: l.Name, File: l.File})
-		st := &BState{heap: Heap{}, pc: "true"}
+		st := &BState{heap: Heap{}, pc: "true", inv: map[string]string{}}
 		o := g.addObl(st, "L", l.Name, l.File, l.Tags, t, l.Src)
 		o.Name = "lemma/L/" + l.Name
 		if len(g.fatal) > 0 {
